@@ -275,6 +275,18 @@ T = [
      "    fn test_case_name(\n        &mut self,\n        feature: &gherkin::Feature,\n        rule: Option<&gherkin::Rule>,\n        scenario: &gherkin::Scenario,\n        step: Either<event::HookType, (&gherkin::Step, IsBackground)>,\n        retries: Option<Retries>,\n    ) -> String {\n        if feature.path.is_none() && retries.is_none() {\n            self.features_without_path += 1;\n        }"),
     ("c14_ignored_counts_passed", "C14/R3", "src/writer/libtest.rs",
      "                self.ignored += 1;", "                self.passed += 1;"),
+    ("c14_json_not_found_as_skipped", "C14/R7", "src/writer/json.rs",
+     "                    event::StepError::NotFound => Status::Undefined,", "                    event::StepError::NotFound => Status::Skipped,"),
+    ("c14_json_after_hook_in_before", "C14/R7", "src/writer/json.rs",
+     "            HookType::After => el.after.push(res),", "            HookType::After => el.before.push(res),"),
+    ("c14_json_background_step_in_scenario_element", "C14/R7", "src/writer/json.rs",
+     "                    \"background\",\n                    &st,", "                    \"scenario\",\n                    &st,"),
+    ("c14_json_failed_hook_without_message", "C14/R7", "src/writer/json.rs",
+     "                    error_message: Some(coerce_error(&info).into_owned()),", "                    error_message: { let _ = &info; None },"),
+    ("c14_json_step_name_from_keyword", "C14/R7", "src/writer/json.rs",
+     "            name: step.value.clone(),", "            name: step.keyword.clone(),"),
+    ("c14_json_rule_scenario_looked_up_without_rule", "C14/R7", "src/writer/json.rs",
+     "        let el = self.mut_or_insert_element(feature, rule, scenario, ty);\n        el.steps.push(step);", "        let el = self.mut_or_insert_element(feature, None, scenario, ty);\n        let _ = rule;\n        el.steps.push(step);"),
     # ---- C02
     ("c02_after_events_before_failed", "C02/R5", B,
      "            if let Some(exec_error) = result.err() {\n                self.emit_failed_events(\n                    feature.clone(),\n                    rule.clone(),\n                    scenario.clone(),\n                    world.clone(),\n                    exec_error,\n                    retry_num,\n                );\n            }\n\n            self.emit_after_hook_events(\n                feature.clone(),\n                rule.clone(),\n                scenario.clone(),\n                world,\n                after_hook_meta,\n                after_hook_error,\n                retry_num,\n            );",
